@@ -89,4 +89,9 @@ inductive AohDeep (env : Env) (idKey : Key) : List Node → List Node → List N
       AohStep env idKey l a es l1 → AohDeep env idKey l1 rest out →
       AohDeep env idKey l (.map a es :: rest) out
 
+/-- `y` is `x`, or both are Hashes (same annotation) and `y` has at least `x`'s keys. -/
+inductive KeysGrow : Node → Node → Prop
+  | same (x : Node) : KeysGrow x x
+  | grown (a : Option Str) (es es' : List (Key × Node)) : (∀ k ∈ keys es, k ∈ keys es') →
+      KeysGrow (.map a es) (.map a es')
 end Ypv.Merge.Spec
